@@ -457,3 +457,11 @@ package httpgen
 //@   ensures every_element_decoded: err == nil ==> len(x.Items) == len(jsonDecoded(data, []json.RawMessage)) && count("protojson.Unmarshal") == old(count("protojson.Unmarshal")) + len(x.Items)
 //@   loop 1 invariant len(x.Items) == _i1 && count("protojson.Unmarshal") == old(count("protojson.Unmarshal")) + _i1
 
+// a message with two flattened children (C11/C04): a child object that does not decode is an error of the whole decoder -
+// no later child, and not the final protojson pass, is reached once a decode has failed
+//@ emitted func (x *FlatTwo) UnmarshalJSON(data []byte) (err error)
+//@   requires x != nil
+//@   modifies *
+//@   at-call json.Unmarshal requires no_earlier_failure: count("json.Unmarshal") > old(count("json.Unmarshal")) ==> lastErrNil("json.Unmarshal")
+//@   at-call protojson.Unmarshal requires every_child_decoded: count("json.Unmarshal") > old(count("json.Unmarshal")) && lastErrNil("json.Unmarshal")
+//@   ensures accepted_means_decoded: err == nil ==> count("protojson.Unmarshal") == old(count("protojson.Unmarshal")) + 1 && lastErrNil("protojson.Unmarshal") && lastErrNil("json.Unmarshal")
